@@ -277,7 +277,8 @@ fn dump_ps2() -> String {
     paths.push(vec![]);
     parents.push((0, 0));
     let mut i = 0;
-    while i < paths.len() {
+    let mut exceeded = false;
+    while i < paths.len() && !exceeded {
         let here = ps2_replay(&paths[i]).expect("replay of a recorded path panicked");
         writeln!(out, "S ps2 {} {} {} {:?}", i, parents[i].0, parents[i].1, format!("{:?}", here)).unwrap();
         for op in [BitOp::Bit(false), BitOp::Bit(true), BitOp::Clear] {
@@ -298,8 +299,11 @@ fn dump_ps2() -> String {
                     None => {
                         let n = paths.len();
                         if n >= BOUND {
-                            writeln!(out, "X ps2 state-bound-exceeded {}", BOUND).unwrap();
-                            return out;
+                            if !exceeded {
+                                writeln!(out, "X ps2 state-bound-exceeded {}", BOUND).unwrap();
+                            }
+                            exceeded = true;
+                            continue;
                         }
                         ids.insert(key, n);
                         let mut p = paths[i].clone();
@@ -322,7 +326,7 @@ fn dump_ps2() -> String {
     // add_word takes &self: compare it in every reachable state with the initial state's answers
     let base: Vec<Option<Result<u8, Error>>> = (0..=65535u16).map(|w| guard(|| dec.add_word(w))).collect();
     let mut diffs = 0;
-    for (i, p) in paths.iter().enumerate() {
+    for (i, p) in paths.iter().enumerate().take(4096) {
         let d = ps2_replay(p).unwrap();
         for w in 0..=65535u16 {
             if guard(|| d.add_word(w)) != base[w as usize] {
@@ -335,6 +339,60 @@ fn dump_ps2() -> String {
     }
     writeln!(out, "WN {}", diffs).unwrap();
     out
+}
+
+// ---------------------------------------------------------------------------------------
+// findpanic: breadth-first search of the real crate for an operation sequence that panics
+
+fn findpanic_ps2(bound: usize) -> String {
+    let mut seen: std::collections::HashSet<String> = std::collections::HashSet::new();
+    let mut paths: Vec<Vec<BitOp>> = vec![vec![]];
+    seen.insert(format!("{:?}", Ps2Decoder::new()));
+    let mut i = 0;
+    while i < paths.len() {
+        for op in [BitOp::Bit(false), BitOp::Bit(true), BitOp::Clear] {
+            let mut d = ps2_replay(&paths[i]).unwrap();
+            let ok = match op {
+                BitOp::Bit(b) => guard(|| { let _ = d.add_bit(b); }).is_some(),
+                BitOp::Clear => guard(|| d.clear()).is_some(),
+            };
+            let mut p = paths[i].clone();
+            p.push(op);
+            if !ok {
+                let s: String = p.iter().map(|o| match o { BitOp::Bit(false) => '0', BitOp::Bit(true) => '1', BitOp::Clear => 'c' }).collect();
+                return format!("PANIC ps2 {}\n", s);
+            }
+            if paths.len() < bound && seen.insert(format!("{:?}", d)) {
+                paths.push(p);
+            }
+        }
+        i += 1;
+    }
+    format!("NONE ps2 states={} {}\n", paths.len(), if paths.len() >= bound { "bound-reached" } else { "exhausted" })
+}
+
+fn findpanic_scan<S: ScancodeSet + Clone + std::fmt::Debug>(tag: &str, init: S, bound: usize) -> String {
+    let mut seen: std::collections::HashSet<String> = std::collections::HashSet::new();
+    let mut states: Vec<(S, Vec<u8>)> = vec![(init.clone(), vec![])];
+    seen.insert(format!("{:?}", init));
+    let mut i = 0;
+    while i < states.len() {
+        for b in 0..=255u8 {
+            let mut s = states[i].0.clone();
+            let ok = guard(|| { let _ = s.advance_state(b); }).is_some();
+            let mut p = states[i].1.clone();
+            p.push(b);
+            if !ok {
+                let txt: Vec<String> = p.iter().map(|x| x.to_string()).collect();
+                return format!("PANIC {} {}\n", tag, txt.join(","));
+            }
+            if states.len() < bound && seen.insert(format!("{:?}", s)) {
+                states.push((s, p));
+            }
+        }
+        i += 1;
+    }
+    format!("NONE {} states={} {}\n", tag, states.len(), if states.len() >= bound { "bound-reached" } else { "exhausted" })
 }
 
 // ---------------------------------------------------------------------------------------
@@ -730,6 +788,12 @@ fn main() {
         ("replay", Some("kbd")) => kbiso::replay(&args[3]),
         ("replay", _) => replay(&args[2..]),
         ("kbiso", _) => kbiso::main(&args[2..]),
+        ("findpanic", _) => {
+            let mut o = findpanic_ps2(3_000_000);
+            o.push_str(&findpanic_scan("set1", ScancodeSet1::new(), 100_000));
+            o.push_str(&findpanic_scan("set2", ScancodeSet2::new(), 100_000));
+            o
+        }
         ("sweep32", Some("set1")) => sweep::sweep::<ScancodeSet1>(),
         ("sweep32", Some("set2")) => sweep::sweep::<ScancodeSet2>(),
         _ => {
